@@ -2,7 +2,8 @@
    (from_digit, ...) GENERATED on every run (Generated/Loops.v, by tools/rs2v_loops.py) equal the hand-written
    model (Model/Core.v, Model/Bits.v). *)
 From Bnum Require Import Base Prim.
-From Bnum.Model Require Import DigitPrims LoopPrims Digit Core Bits Imp.
+From Bnum.Model Require Import DigitPrims LoopPrims Digit Core Imp.
+From Bnum.Model Require Shift Bits Convert.
 From Bnum.Generated Require Import DigitGen Loops.
 From Bnum.Proofs Require Import ImpLemmas ImpLemmas2.
 
@@ -16,3 +17,77 @@ Qed.
 
 Lemma loops_from_digit_0 w d fuel : Loops.from_digit w 0 fuel d = Panicked.
 Proof. reflexivity. Qed.
+
+Lemma loops_digits w n a fuel : Loops.digits w n fuel a = Done (Convert.digits a).
+Proof. reflexivity. Qed.
+
+Lemma loops_from_digits w n a fuel : Loops.from_digits w n fuel a = Done (Convert.from_digits a).
+Proof. reflexivity. Qed.
+
+Lemma set_nth_as_list_set f l k : (k < length l)%nat -> Shift.set_nth k f l = list_set l k (f (nth k l 0)).
+Proof.
+  intros Hk. unfold Shift.set_nth. rewrite list_set_split by exact Hk.
+  rewrite (skipn_nth_cons l k) by exact Hk. reflexivity.
+Qed.
+
+(* bit / set_bit / power_of_two: `index >> BIT_SHIFT` is the digit, `index & BITS_MINUS_1` the bit in it (power-of-two width);
+   the index past the array is the Rust index panic, which the hand model has as Panic *)
+Lemma loops_bit w lg n a index : 0 <= lg -> w = 2 ^ lg -> wf w n a -> 0 <= index ->
+  forall fuel, Loops.bit w (Z.of_nat n) fuel a index =
+               match Bits.bit w a index with Ret b => Done b | Panic => Panicked end.
+Proof.
+  intros Hlg Hw _ Hi fuel. assert (0 < w) by (subst w; apply Z.pow_pos_nonneg; lia).
+  unfold Loops.bit, Bits.bit. destruct (bit_addr_split w lg index Hlg Hw Hi) as [-> ->].
+  rewrite arr_get_cases by (apply Z.div_pos; lia).
+  destruct (Z.to_nat (index / w) <? length a)%nat; [|reflexivity]. cbn [bind].
+  rewrite dshl_ok by (apply Z.mod_pos_bound; lia). reflexivity.
+Qed.
+
+Lemma loops_set_bit w lg n a index value : 0 <= lg -> w = 2 ^ lg -> wf w n a -> 0 <= index ->
+  forall fuel, Loops.set_bit w (Z.of_nat n) fuel a index value =
+               match Bits.set_bit w a index value with Ret r => Done r | Panic => Panicked end.
+Proof.
+  intros Hlg Hw _ Hi fuel. assert (0 < w) by (subst w; apply Z.pow_pos_nonneg; lia).
+  unfold Loops.set_bit, Bits.set_bit. destruct (bit_addr_split w lg index Hlg Hw Hi) as [-> ->].
+  cbv zeta. rewrite arr_get_cases by (apply Z.div_pos; lia).
+  destruct (Nat.ltb_spec (Z.to_nat (index / w)) (length a)) as [Hlt|Hge]; [|reflexivity]. cbn [bind].
+  rewrite !dshl_ok by (apply Z.mod_pos_bound; lia). cbn [bind].
+  rewrite arr_set_cases by (apply Z.div_pos; lia).
+  destruct (Nat.ltb_spec (Z.to_nat (index / w)) (length a)) as [_|?]; [|lia]. cbn [bind].
+  rewrite set_nth_as_list_set by exact Hlt. destruct value; reflexivity.
+Qed.
+
+Lemma loops_power_of_two w lg n power : 0 <= lg -> w = 2 ^ lg -> 0 <= power ->
+  forall fuel, Loops.power_of_two w (Z.of_nat n) fuel power =
+               match Bits.power_of_two w n power with Ret r => Done r | Panic => Panicked end.
+Proof.
+  intros Hlg Hw Hi fuel. assert (0 < w) by (subst w; apply Z.pow_pos_nonneg; lia).
+  unfold Loops.power_of_two, Bits.power_of_two. rewrite Nat2Z.id.
+  rewrite usub_ok by lia. cbn [bind]. change (w - 1) with (digit_BITS_MINUS_1 w).
+  destruct (bit_addr_split w lg power Hlg Hw Hi) as [-> ->].
+  rewrite dshl_ok by (apply Z.mod_pos_bound; lia). cbn [bind].
+  rewrite arr_set_cases by (apply Z.div_pos; lia). unfold ZERO at 1. rewrite repeat_length.
+  destruct (Nat.ltb_spec (Z.to_nat (power / w)) n) as [Hlt|Hge]; [|reflexivity]. cbn [bind].
+  rewrite set_nth_as_list_set by (unfold ZERO; rewrite repeat_length; exact Hlt). reflexivity.
+Qed.
+
+(* ---- all obligations of this batch in one statement ---- *)
+Theorem loops_C06b_match_model w lg : 0 <= lg -> w = 2 ^ lg ->
+  (forall n d fuel, (0 < n)%nat -> Loops.from_digit w (Z.of_nat n) fuel d = Done (from_digit n d)) /\
+  (forall n a fuel, Loops.digits w n fuel a = Done (Convert.digits a)) /\
+  (forall n a fuel, Loops.from_digits w n fuel a = Done (Convert.from_digits a)) /\
+  (forall n a index fuel, wf w n a -> 0 <= index ->
+     Loops.bit w (Z.of_nat n) fuel a index = match Bits.bit w a index with Ret b => Done b | Panic => Panicked end) /\
+  (forall n a index value fuel, wf w n a -> 0 <= index ->
+     Loops.set_bit w (Z.of_nat n) fuel a index value =
+     match Bits.set_bit w a index value with Ret r => Done r | Panic => Panicked end) /\
+  (forall n power fuel, 0 <= power ->
+     Loops.power_of_two w (Z.of_nat n) fuel power =
+     match Bits.power_of_two w n power with Ret r => Done r | Panic => Panicked end).
+Proof.
+  intros Hlg Hw. repeat split; intros.
+  - apply loops_from_digit; assumption.
+  - apply (loops_bit w lg); assumption.
+  - apply (loops_set_bit w lg); assumption.
+  - apply (loops_power_of_two w lg); assumption.
+Qed.
